@@ -244,6 +244,7 @@ def run_gc_scenario(ctx, report, pid, name, spec, timeout_ms, table):
                             r = sol.check()
                             if r == z3.unknown:
                                 raise Inconclusive('solver timeout')
+                            common.cross_check(sol, r)
                             if r == z3.sat:
                                 vios.append(('C06', {'key': key, 'what': '[%s] %s not preserved' % (name, what), 'spec': spec, 'model': sol.model(), 'steps': steps}))
         mine = [v for p, v in vios if p == pid]
